@@ -131,6 +131,11 @@ def build(r):
             col = r.choice([x for x in ['p6', 'p7'] if x not in used_cols] or ['p8'])
             used_cols.add(col)
             q.conj.append({'kind': k, 'text': f'(m.{col} = {c} AND t.id > {c + 1000})', 'consts': [c, c + 1000], 'model_arg': (col, c), 'nested': True})
+    # an equality on the very model column that the ON clause maps to a table column: still an argument
+    if q.columns_map and r.random() < 0.35:
+        mc = next(iter(q.columns_map))
+        c = k0 + 90
+        q.conj.append({'kind': 'model-eq-mapped-column', 'text': f'm.{mc} = {c}', 'consts': [c], 'model_arg': (mc, c)})
     # the same conjunct written twice (generated SQL does that): both copies are the same condition
     dupable = [c for c in q.conj if c['kind'] in ('model-eq', 'table-cmp', 'table-in')]
     if dupable and r.random() < 0.2:
